@@ -9,7 +9,7 @@ fn run(c: &Hist, obs: &mut Obs) -> Result<(), String> {
 
 pub fn property(tier: Tier) -> Property {
     Property {
-        id: "C02",
+        id: "C02", scale: tier.pick(5, 2),
         stages: super::c01::stages(
             tier,
             run,
